@@ -244,4 +244,28 @@ example : ∃ mi, MsgIter.new sample = .ok mi ∧
   rw [hk] at h5
   exact ⟨mi, h1, h5⟩
 
+/-- closes `g n = decide (n > 65535)` for the usual spellings of a length gate -/
+macro "gate_tac" : tactic => `(tactic|
+  first
+  | rfl
+  | (rw [Bool.eq_iff_iff]
+     simp only [Bool.not_eq_true', Bool.not_eq_true, decide_eq_true_eq, decide_eq_false_iff_not, Bool.and_eq_true,
+       Bool.or_eq_true]
+     try simp only [DNS_MESSAGE_MAX_LENGTH]
+     omega))
+
+/-- **The size limit of `MessageReader::new`, pinned to the source.**  The condition extracted from
+    `reader.rs` (`Generated.reader_new_too_long`, regenerated on every run) refuses exactly the buffers
+    of more than 65535 bytes: a well-formed message of exactly 65535 bytes — the largest the two-octet
+    TCP length prefix can announce — is accepted, 65536 is not. -/
+theorem reader_gate_pinned (n : Nat) : reader_new_too_long n = decide (n > 65535) := by
+  unfold reader_new_too_long
+  gate_tac
+
+/-- the model's `Reader.new` is the source's gate followed by the initial state -/
+theorem reader_new_agrees (msg : Bytes) :
+    Reader.new msg = if reader_new_too_long msg.size then .err (.messageTooLong msg.size)
+      else .ok { cur := Cur.new msg, tr := Tracker.default, done := false } := by
+  rw [reader_gate_pinned]; unfold Reader.new; by_cases h : msg.size > 65535 <;> simp [h]
+
 end Rsdns.C02
